@@ -136,6 +136,18 @@ fn bx(e: E) -> Box<E> {
     Box::new(e)
 }
 
+/// what `e[i]` / `e.field` find below EVERY pointer level of `e`, and the mutability of each level
+/// followed (outermost first)
+fn peel(t: &Ty) -> (Ty, Vec<bool>) {
+    let mut t = t.clone();
+    let mut ms = vec![];
+    while let Ty::Ptr(m, u) = t {
+        ms.push(m);
+        t = *u;
+    }
+    (t, ms)
+}
+
 pub fn type_of(e: &E) -> Option<Ty> {
     Some(match e {
         E::Lit => Ty::Int,
@@ -146,22 +158,14 @@ pub fn type_of(e: &E) -> Option<Ty> {
             Ty::Ptr(_, t) => *t,
             _ => return None,
         },
-        E::Index(e) => match type_of(e)? {
+        E::Index(e) => match peel(&type_of(e)?).0 {
             Ty::Arr(t) => *t,
-            Ty::Ptr(_, t) => match *t {
-                Ty::Arr(t) => *t,
-                _ => return None,
-            },
             _ => return None,
         },
         E::Block(e) | E::Paren(e) => type_of(e)?,
         E::Loc { ty, .. } | E::Param(ty) | E::Global(ty) | E::FileMember(ty) => ty.clone(),
-        E::Member(prev, ty) => match type_of(prev)? {
+        E::Member(prev, ty) => match peel(&type_of(prev)?).0 {
             Ty::Struct(f) if *f == *ty => ty.clone(),
-            Ty::Ptr(_, s) => match *s {
-                Ty::Struct(f) if *f == *ty => ty.clone(),
-                _ => return None,
-            },
             _ => return None,
         },
         E::Call(t, _) | E::Cast(t, _) | E::If(t, _) => t.clone(),
@@ -237,8 +241,13 @@ fn place(e: &E) -> (Root, Vec<bool>) {
         // fields and elements live where their container lives, unless the container is
         // reached through a pointer (auto-deref)
         E::Index(p) | E::Member(p, _) => match type_of(p) {
-            Some(Ty::Ptr(m, _)) => hop(p, m),
-            _ => place(p),
+            Some(t) => {
+                // one hop per pointer level (indexing and field access follow all of them)
+                let (r, mut h) = place(p);
+                h.extend(peel(&t).1);
+                (r, h)
+            }
+            None => place(p),
         },
         E::Paren(p) | E::Unwrap(p) => place(p),
         // values, not places
@@ -572,20 +581,12 @@ fn apply(step: Step, e: &E) -> Option<E> {
     match step {
         Step::Deref => matches!(t, Ty::Ptr(..)).then(|| E::Deref(bx(postfix_base(e.clone())))),
         Step::Index => {
-            let ok = match &t {
-                Ty::Arr(_) => true,
-                Ty::Ptr(_, u) => matches!(**u, Ty::Arr(_)),
-                _ => false,
-            };
+            let ok = matches!(peel(&t).0, Ty::Arr(_));
             ok.then(|| E::Index(bx(postfix_base(e.clone()))))
         }
         Step::Member => {
-            let f = match &t {
-                Ty::Struct(f) => Some((**f).clone()),
-                Ty::Ptr(_, u) => match &**u {
-                    Ty::Struct(f) => Some((**f).clone()),
-                    _ => None,
-                },
+            let f = match peel(&t).0 {
+                Ty::Struct(f) => Some((*f).clone()),
                 _ => None,
             };
             f.map(|f| E::Member(bx(postfix_base(e.clone())), f))
